@@ -155,6 +155,53 @@ def b(tok):
     return tok == "1"
 
 
+# ---------------------------------------------------------------- shared argument objects
+# The real functions are handed the SAME Python object again whenever the same token recurs in a
+# process, and after every call each object is compared with the token it was built from: a call
+# that writes into one of its arguments is reported (suffix `ARGUMENT-MODIFIED:<kind>` on the result
+# line, which then disagrees with the model) and is seen by later calls, exactly as a user's shared
+# graph, table, message or mask would be. `remove_nasty_arc`, documented to work in place, is exempt.
+_CACHE = {}
+_USED = []
+
+
+def _shared(kind, tok, make, enc):
+    key = (kind, tok)
+    if key not in _CACHE:
+        if len(_CACHE) > 400:
+            _CACHE.clear()
+        _CACHE[key] = make(tok)
+    obj = _CACHE[key]
+    _USED.append((key, obj, enc))
+    return obj
+
+
+def s_acc(tok):
+    return _shared("accessor", tok, dec_acc, enc_acc)
+
+
+def s_tbl(tok):
+    return None if tok == "-" else _shared("shuffles", tok, dec_tbl, enc_tbl)
+
+
+def s_bits(tok):
+    return _shared("binary_message", tok, dec_bits, enc_bits)
+
+
+def s_lmap(tok):
+    return _shared("latter_map", tok, dec_lmap, enc_lmap)
+
+
+def s_matrix(tok):
+    return _shared("matrix", tok, dec_matrix, enc_matrix)
+
+
+def s_mask(tok, dtype):
+    return _shared("vertices[%s]" % dtype.__name__, tok,
+                   lambda t: np.array([int(c) for c in undash(t)], dtype=dtype),
+                   lambda m: dash("".join(str(int(x)) for x in m)))
+
+
 # ---------------------------------------------------------------- errors
 class BudgetExceeded(Exception):
     pass
@@ -225,8 +272,26 @@ def mk_filter(k, run, motifs, gcfloats):
 
 # ---------------------------------------------------------------- implementation side
 def run_impl(line, extra=None):
-    """Execute one protocol line against the real code and return the canonical result line.
-    `extra` may carry Python-only side information (float gc range for `flt`)."""
+    """Execute one protocol line against the real code and return the canonical result line;
+    reports arguments the call modified (see the shared-object cache above)."""
+    del _USED[:]
+    out = _run_impl(line, extra)
+    modified = []
+    for key, obj, enc in list(_USED):
+        try:
+            same = enc(obj) == key[1]
+        except Exception:  # noqa
+            same = False
+        if not same:
+            modified.append(key[0])
+            _CACHE.pop(key, None)
+    del _USED[:]
+    if modified:
+        out += " ARGUMENT-MODIFIED:" + ",".join(sorted(set(modified)))
+    return out
+
+
+def _run_impl(line, extra=None):
     t = line.split(" ")
     op = t[0]
     def plain(fn):
@@ -241,7 +306,7 @@ def run_impl(line, extra=None):
     if op == "div":
         return plain(lambda: " ".join(OP.calculus_division(t[1], t[2])))
     if op == "b2n":
-        bits = dec_bits(t[1])
+        bits = s_bits(t[1])
         return OP.bit_to_number(bits, is_string=True) + " " + big_str(OP.bit_to_number(bits, is_string=False))
     if op == "n2b":
         s = guarded(lambda: OP.number_to_bit(t[1], int(t[2])), 240)
@@ -262,38 +327,38 @@ def run_impl(line, extra=None):
     if op == "complete":
         return show_acc(GZ.get_complete_accessor(int(t[1])))
     if op == "a2m":
-        return render(*guarded(lambda: GZ.accessor_to_adjacency_matrix(dec_acc(t[1]))), enc_matrix)
+        return render(*guarded(lambda: GZ.accessor_to_adjacency_matrix(s_acc(t[1]))), enc_matrix)
     if op == "m2a":
-        return render(*guarded(lambda: GZ.adjacency_matrix_to_accessor(dec_matrix(t[1]))), show_acc)
+        return render(*guarded(lambda: GZ.adjacency_matrix_to_accessor(s_matrix(t[1]))), show_acc)
     if op == "a2l":
-        return enc_lmap(GZ.accessor_to_latter_map(dec_acc(t[1])))
+        return enc_lmap(GZ.accessor_to_latter_map(s_acc(t[1])))
     if op == "l2a":
         th = None if t[3] == "-" else int(t[3])
-        return render(*guarded(lambda: GZ.latter_map_to_accessor(dec_lmap(t[1]), int(t[2]), threshold=th)), show_acc)
+        return render(*guarded(lambda: GZ.latter_map_to_accessor(s_lmap(t[1]), int(t[2]), threshold=th)), show_acc)
     if op == "rmu":
-        return render(*guarded(lambda: GZ.remove_useless(dec_lmap(t[1]), int(t[2]))), enc_lmap)
+        return render(*guarded(lambda: GZ.remove_useless(s_lmap(t[1]), int(t[2]))), enc_lmap)
     if op == "verts":
-        return show_nats(GZ.obtain_vertices(dec_acc(t[1])))
+        return show_nats(GZ.obtain_vertices(s_acc(t[1])))
     if op == "leafa":
-        return show_nats(GZ.obtain_leaf_vertices(int(t[2]), int(t[3]), accessor=dec_acc(t[1])))
+        return show_nats(GZ.obtain_leaf_vertices(int(t[2]), int(t[3]), accessor=s_acc(t[1])))
     if op == "leafl":
-        return show_nats(GZ.obtain_leaf_vertices(int(t[2]), int(t[3]), latter_map=dec_lmap(t[1])))
+        return show_nats(GZ.obtain_leaf_vertices(int(t[2]), int(t[3]), latter_map=s_lmap(t[1])))
     if op == "pm":
         def fmt(r):
             rec, cnt = r
             return dash(";".join("%s,%d,%s,%s" % (i[0], i[1], i[2], dash(f)) for i, f in rec)) + " " + str(int(cnt))
-        return render(*guarded(lambda: GZ.path_matching(undash(t[2]), dec_acc(t[1]), int(t[3]), int(t[4]),
+        return render(*guarded(lambda: GZ.path_matching(undash(t[2]), s_acc(t[1]), int(t[3]), int(t[4]),
                                                         has_indel=b(t[5]))), fmt)
     if op == "cis":
-        sc = GZ.calculate_intersection_score(dec_lmap(t[1]), observed_length=int(t[2]),
+        sc = GZ.calculate_intersection_score(s_lmap(t[1]), observed_length=int(t[2]),
                                              has_insertion=b(t[3]), has_deletion=b(t[4]))
         return dash(";".join(",".join(str(int(e)) for e in r) for r in sc))
     if op == "enc":
-        acc = dec_acc(t[1]) if extra is None or "acc" not in extra else extra["acc"]
+        acc = s_acc(t[1]) if extra is None or "acc" not in extra else extra["acc"]
 
         def call():
-            tbl = dec_tbl(t[2]) if extra is None or "tbl" not in extra else extra["tbl"]
-            r = SW.encode(dec_bits(t[4]), acc, int(t[3]), is_faster=b(t[5]), vt_length=int(t[6]),
+            tbl = s_tbl(t[2]) if extra is None or "tbl" not in extra else extra["tbl"]
+            r = SW.encode(s_bits(t[4]), acc, int(t[3]), is_faster=b(t[5]), vt_length=int(t[6]),
                           shuffles=tbl, need_path=True)
             if int(t[6]) > 0:
                 s, c, p = r
@@ -307,13 +372,13 @@ def run_impl(line, extra=None):
                 dash(";".join("%d,%d" % (int(x[0]), int(x[1])) for x in p))
         return render(*guarded(call), fmt)
     if op == "dec":
-        acc = dec_acc(t[1]) if extra is None or "acc" not in extra else extra["acc"]
+        acc = s_acc(t[1]) if extra is None or "acc" not in extra else extra["acc"]
         return render(*guarded(lambda: SW.decode(undash(t[4]), int(t[5]), acc, int(t[3]), is_faster=b(t[6]),
-                                                 vt_check=opt(t[7]), shuffles=dec_tbl(t[2]))), enc_bits)
+                                                 vt_check=opt(t[7]), shuffles=s_tbl(t[2]))), enc_bits)
     if op == "vt":
         return render(*guarded(lambda: SW.set_vt(undash(t[1]), int(t[2]))), dash)
     if op == "rep":
-        acc = dec_acc(t[1]) if extra is None or "acc" not in extra else extra["acc"]
+        acc = s_acc(t[1]) if extra is None or "acc" not in extra else extra["acc"]
 
         def fmt(r):
             c, (d, f, cnt, vis) = r
@@ -324,10 +389,10 @@ def run_impl(line, extra=None):
         return render(*guarded(lambda: SW.find_vertices(int(t[1]), TableFilter(t[2]))),
                       lambda m: "".join(str(int(x)) for x in m))
     if op == "cvg":
-        m = None if t[2] == "None" else np.array([int(c) for c in undash(t[2])], dtype=(extra or {}).get("dtype", int))
+        m = None if t[2] == "None" else s_mask(t[2], (extra or {}).get("dtype", int))
         return render(*guarded(lambda: SW.connect_valid_graph(int(t[1]), m)), show_acc)
     if op == "ccg":
-        m = np.array([int(c) for c in undash(t[2])], dtype=(extra or {}).get("dtype", int))
+        m = s_mask(t[2], (extra or {}).get("dtype", int))
 
         def fmt(r):
             vs, acc = r
@@ -343,7 +408,7 @@ def run_impl(line, extra=None):
                                                            has_deletion=b(t[4]))), fmt)
     if op == "cap":
         from fractions import Fraction
-        acc = dec_acc(t[1])
+        acc = s_acc(t[1])
         vecs = [[Fraction(x) for x in v.split(",")] for v in t[4].split(";")]
         repeats = len(vecs)
         seed = int(t[5])
